@@ -2,6 +2,7 @@ package rules
 
 import (
 	"fmt"
+	"go/constant"
 	"go/token"
 	"go/types"
 	"strings"
@@ -98,7 +99,9 @@ func runC07(c *Ctx) {
 		key := fname(writeFn) + ":write-then-flush"
 		// success paths after Write pass Flush
 		eb := errorEdgeBlocks(bufWrite)
-		p := flow.PathAvoiding(writeFn, bufWrite, func(in ssa.Instruction) bool { return flow.IsReturn(in) && !eb[in.Block()] },
+		p := flow.PathAvoiding(writeFn, bufWrite, func(in ssa.Instruction) bool {
+			return flow.IsReturn(in) && !eb[in.Block()] && mayReturnNilError(in.(*ssa.Return))
+		},
 			func(in ssa.Instruction) bool { return in == ssa.Instruction(bufFlush) || eb[in.Block()] })
 		if p != nil {
 			r.Fail("R2", key, c.pos(bufWrite), "after the buffered Write succeeded a path returns without Flush: the message stays in the buffer and is sent (or lost) with a later one", c.witness(p)...)
@@ -380,47 +383,73 @@ func (c *Ctx) c07Loop(g *ssa.Function) {
 		}
 	}
 	key = fname(g) + ":resume-arithmetic"
-	arg := w.Call.Args[0]
-	ph, ok := arg.(*ssa.Phi)
-	if !ok || ph.Block() != l.Head {
-		r.Fail("R4", key, c.pos(w), "the buffer written in the loop is not carried from one iteration to the next: a retry re-sends bytes the transport already accepted (or sends the wrong ones)")
-		return
+	inLoop := func(i int, ph *ssa.Phi) bool { return l.Blocks[ph.Block().Preds[i]] }
+	isHeadPhi := func(v ssa.Value) (*ssa.Phi, bool) {
+		ph, ok := v.(*ssa.Phi)
+		return ph, ok && ph.Block() == l.Head
 	}
-	okSlice := true
-	why := ""
-	var param ssa.Value
-	for i, e := range ph.Edges {
-		if !l.Blocks[ph.Block().Preds[i]] {
-			param = e
-			continue
-		}
-		// back edge: phi(prev, prev[wn:]) or prev[wn:]
-		var alts []ssa.Value
-		if bp, ok := e.(*ssa.Phi); ok {
-			alts = bp.Edges
-		} else {
-			alts = []ssa.Value{e}
-		}
-		sawResume := false
-		for _, a := range alts {
-			if a == ssa.Value(ph) {
-				continue // wn == 0 case keeps the slice
+	// alternatives of a value through merge phis inside the loop
+	var alts func(v ssa.Value, d int) []ssa.Value
+	alts = func(v ssa.Value, d int) []ssa.Value {
+		if ph, ok := v.(*ssa.Phi); ok && ph.Block() != l.Head && d < 4 {
+			var out []ssa.Value
+			for _, e := range ph.Edges {
+				out = append(out, alts(e, d+1)...)
 			}
-			sl, ok := a.(*ssa.Slice)
-			if !ok || sl.X != ssa.Value(ph) || sl.Low != wn || sl.High != nil {
-				okSlice, why = false, "on a retry the remaining bytes are not b[wn:] of the slice just written with wn the count that write returned"
+			return out
+		}
+		return []ssa.Value{v}
+	}
+	// stepOK: on the back edges phi advances by exactly wn (or stays, for the wn == 0 arm); entry value as wanted
+	stepOK := func(ph *ssa.Phi, entryOK func(ssa.Value) bool, advanced func(ssa.Value) bool) (bool, string) {
+		sawAdvance := false
+		for i, e := range ph.Edges {
+			if !inLoop(i, ph) {
+				if !entryOK(e) {
+					return false, "the first write does not send the buffer handed in from its first byte"
+				}
 				continue
 			}
-			sawResume = true
+			for _, a := range alts(e, 0) {
+				if a == ssa.Value(ph) {
+					continue // wn == 0 arm keeps the position
+				}
+				if !advanced(a) {
+					return false, "on a retry the remaining bytes are not those after the count the preceding write returned"
+				}
+				sawAdvance = true
+			}
 		}
-		if !sawResume && okSlice {
-			okSlice, why = false, "a retry writes the same slice again although the transport accepted part of it: the accepted bytes are sent twice"
+		if !sawAdvance {
+			return false, "a retry writes the same bytes again although the transport accepted part of them: the accepted bytes are sent twice"
+		}
+		return true, ""
+	}
+	arg := w.Call.Args[0]
+	okSlice, why := false, "the buffer written in the loop is neither carried from one iteration to the next as b[wn:] nor addressed as b[sent:] with sent advanced by each write's count: a retry re-sends bytes the transport already accepted (or sends the wrong ones)"
+	var offsetPhi *ssa.Phi
+	if ph, isHead := isHeadPhi(arg); isHead {
+		// reslice form: b = b[wn:]
+		okSlice, why = stepOK(ph,
+			func(e ssa.Value) bool { _, isP := flow.Peel(e).(*ssa.Parameter); return isP },
+			func(a ssa.Value) bool {
+				sl, ok := a.(*ssa.Slice)
+				return ok && sl.X == ssa.Value(ph) && sl.Low == wn && sl.High == nil
+			})
+	} else if sl, isSl := arg.(*ssa.Slice); isSl && sl.High == nil && sl.Low != nil {
+		// offset form: write(b[sent:]); sent += wn
+		if _, isP := flow.Peel(sl.X).(*ssa.Parameter); isP {
+			if ph, isHead := isHeadPhi(sl.Low); isHead {
+				offsetPhi = ph
+				okSlice, why = stepOK(ph, isZeroConst,
+					func(a ssa.Value) bool {
+						bo, ok := a.(*ssa.BinOp)
+						return ok && bo.Op == token.ADD && ((bo.X == ssa.Value(ph) && bo.Y == wn) || (bo.Y == ssa.Value(ph) && bo.X == wn))
+					})
+			}
 		}
 	}
-	if _, isP := flow.Peel(param).(*ssa.Parameter); !isP {
-		okSlice, why = false, "the first write does not send the buffer handed in"
-	}
-	r.Check(okSlice, "R4", key, c.pos(w), "next slice = b[wn:] (b when wn == 0), wn = count returned by the preceding write", why)
+	r.Check(okSlice, "R4", key, c.pos(w), "next write starts at the byte after those the preceding writes reported (b[wn:] carried, or b[sent:] with sent += wn)", why)
 
 	// retry conditions on the back edge
 	key = fname(g) + ":retry-conditions"
@@ -434,19 +463,66 @@ func (c *Ctx) c07Loop(g *ssa.Function) {
 		r.Undecided("R4", key, c.pos(w), "cannot find the loop's back edge / the write's error")
 		return
 	}
+	// the retry budget: a counter counted down from the retries parameter to 0, or up from 0 to it
+	var budget *ssa.Phi
+	budgetUp := false
+	for _, in := range l.Head.Instrs {
+		rp, ok := in.(*ssa.Phi)
+		if !ok || rp == offsetPhi {
+			continue
+		}
+		if bt, isB := rp.Type().Underlying().(*types.Basic); !isB || bt.Info()&types.IsInteger == 0 {
+			continue
+		}
+		down, up := true, true
+		for i, e := range rp.Edges {
+			if !inLoop(i, rp) {
+				if _, isP := flow.Peel(e).(*ssa.Parameter); !isP {
+					down = false
+				}
+				if !isZeroConst(e) {
+					up = false
+				}
+				continue
+			}
+			bo, ok := e.(*ssa.BinOp)
+			k := int64(0)
+			if ok {
+				k, _ = flow.ConstInt(bo.Y)
+			}
+			if !ok || bo.X != ssa.Value(rp) || k != 1 {
+				down, up = false, false
+				continue
+			}
+			if bo.Op != token.SUB {
+				down = false
+			}
+			if bo.Op != token.ADD {
+				up = false
+			}
+		}
+		if down || up {
+			budget, budgetUp = rp, up
+		}
+	}
 	conds := map[string]bool{}
 	for _, gd := range flow.Guards(back.Instrs[len(back.Instrs)-1]) {
 		cond, neg := flow.Cond(gd.If.Cond, gd.Taken)
 		switch x := cond.(type) {
 		case *ssa.BinOp:
 			rl, _ := condRel(gd.If.Cond, gd.Taken)
-			if (rl.a == werr && flow.IsNilConst(rl.b) || rl.b == werr && flow.IsNilConst(rl.a)) && rl.op == token.NEQ {
-				conds["err != nil"] = true
+			if budget != nil && flow.Peel(rl.a) == ssa.Value(budget) {
+				if !budgetUp && isZeroConst(rl.b) && (rl.op == token.NEQ || rl.op == token.GTR) {
+					conds["retries left"] = true
+				}
+				if _, isP := flow.Peel(rl.b).(*ssa.Parameter); budgetUp && isP && (rl.op == token.NEQ || rl.op == token.LSS) {
+					conds["retries left"] = true
+				}
 			}
-			if _, isP := flow.Peel(rl.a).(*ssa.Phi); isP && isZeroConst(rl.b) && (rl.op == token.NEQ || rl.op == token.GTR) && isUnsigned(rl.a.Type()) {
-				conds["retries != 0"] = true
+			if _, isP := flow.Peel(rl.b).(*ssa.Parameter); budget != nil && budgetUp && isP && flow.Peel(rl.a) != ssa.Value(budget) {
+				// attempt+1 < retries style comparisons are not recognised: leave undecided below
+				_ = isP
 			}
-			_ = x
 		case *ssa.Extract:
 			if ta, ok := x.Tuple.(*ssa.TypeAssert); ok && x.Index == 1 && !neg && ta.X == werr && flow.TypeIs(ta.AssertedType, "net", "Error") {
 				conds["err is net.Error"] = true
@@ -455,31 +531,24 @@ func (c *Ctx) c07Loop(g *ssa.Function) {
 			if x.Call.IsInvoke() && x.Call.Method.Name() == "Temporary" && !neg {
 				conds["Temporary()"] = true
 			}
-		}
-	}
-	var missing []string
-	for _, k := range []string{"err != nil", "retries != 0", "err is net.Error", "Temporary()"} {
-		if !conds[k] {
-			missing = append(missing, k)
-		}
-	}
-	r.Check(len(missing) == 0, "R4", key, c.pos(w), "the retry edge requires err != nil ∧ retries != 0 ∧ net.Error ∧ Temporary()", fmt.Sprintf("a write is retried without requiring %v: permanent errors are retried / the retry budget is ignored", missing))
-	// retries decremented on the back edge
-	decOK := false
-	for _, in := range l.Head.Instrs {
-		if rp, ok := in.(*ssa.Phi); ok && isUnsigned(rp.Type()) {
-			for i, e := range rp.Edges {
-				if l.Blocks[rp.Block().Preds[i]] {
-					if bo, ok := e.(*ssa.BinOp); ok && bo.Op == token.SUB && bo.X == ssa.Value(rp) {
-						if k, ok := flow.ConstInt(bo.Y); ok && k == 1 {
-							decOK = true
-						}
+			// a package-local predicate over the write's error
+			if h := flow.StaticCallee(x); h != nil && h.Blocks != nil && c.P.IsLibrary(h) && !neg {
+				for i, a := range x.Call.Args {
+					if a == werr && i < len(h.Params) && impliesTemporaryNetError(h, h.Params[i]) {
+						conds["err is net.Error"], conds["Temporary()"] = true, true
 					}
 				}
 			}
 		}
 	}
-	r.Check(decOK, "R4", fname(g)+":retry-budget-consumed", c.pos(w), "each retry decrements the remaining retries by one", "retries are not counted down: a persistently failing transport is retried forever")
+	var missing []string
+	for _, k := range []string{"retries left", "err is net.Error", "Temporary()"} {
+		if !conds[k] {
+			missing = append(missing, k)
+		}
+	}
+	r.Check(len(missing) == 0, "R4", key, c.pos(w), "the retry edge requires retries left ∧ err is a net.Error ∧ Temporary()", fmt.Sprintf("a write is retried without requiring %v: permanent errors are retried / the retry budget is ignored", missing))
+	r.Check(budget != nil, "R4", fname(g)+":retry-budget-consumed", c.pos(w), "each retry consumes one unit of the retry budget (counter stepped by one per iteration, from/to the retries parameter)", "retries are not counted: a persistently failing transport is retried forever")
 	// n accumulates
 	accOK := false
 	for _, rv := range flow.ReturnValues(g, 0) {
@@ -488,4 +557,48 @@ func (c *Ctx) c07Loop(g *ssa.Function) {
 		}
 	}
 	r.Check(accOK, "R4", fname(g)+":count-accumulates", c.pos(w), "the returned byte count is the sum of the counts of all writes", "the returned byte count does not accumulate the counts of the individual writes")
+}
+
+// impliesTemporaryNetError: the boolean function h returns true only when its parameter p is a net.Error whose
+// Temporary() is true: every returned value is false, or the result of Temporary() invoked on p asserted to
+// net.Error (merged through phis).
+func impliesTemporaryNetError(h *ssa.Function, p *ssa.Parameter) bool {
+	var okv func(v ssa.Value, d int) bool
+	okv = func(v ssa.Value, d int) bool {
+		if d > 4 {
+			return false
+		}
+		switch x := v.(type) {
+		case *ssa.Const:
+			return x.Value != nil && x.Value.Kind() == constant.Bool && !constant.BoolVal(x.Value)
+		case *ssa.Phi:
+			for _, e := range x.Edges {
+				if !okv(e, d+1) {
+					return false
+				}
+			}
+			return true
+		case *ssa.Call:
+			if !x.Call.IsInvoke() || x.Call.Method.Name() != "Temporary" {
+				return false
+			}
+			recv := x.Call.Value
+			if ex, ok := recv.(*ssa.Extract); ok {
+				recv = ex.Tuple
+			}
+			ta, ok := recv.(*ssa.TypeAssert)
+			return ok && ta.X == ssa.Value(p) && flow.TypeIs(ta.AssertedType, "net", "Error")
+		}
+		return false
+	}
+	rvs := flow.ReturnValues(h, 0)
+	if len(rvs) == 0 {
+		return false
+	}
+	for _, rv := range rvs {
+		if !okv(rv, 0) {
+			return false
+		}
+	}
+	return true
 }
